@@ -1,5 +1,4 @@
 import sys
-from functools import lru_cache
 
 from xlcalculator.xlfunctions import xl, func_xltypes
 
@@ -11,6 +10,8 @@ class EvaluatorContext(ast_nodes.EvalContext):
     def __init__(self, evaluator, ref, seen=None):
         super().__init__(evaluator.namespace, ref, seen)
         self.evaluator = evaluator
+        # Values of the cells evaluated through this context.
+        self._cache = {}
 
     @property
     def cells(self):
@@ -20,8 +21,10 @@ class EvaluatorContext(ast_nodes.EvalContext):
     def ranges(self):
         return self.evaluator.model.ranges
 
-    @lru_cache(maxsize=None)
     def eval_cell(self, addr):
+        if addr in self._cache:
+            return self._cache[addr]
+
         # Check for a cycle. `seen` is the chain of cells whose evaluation
         # led to the cell of this context.
         chain = self.seen + [self.ref]
@@ -29,8 +32,9 @@ class EvaluatorContext(ast_nodes.EvalContext):
             raise RuntimeError(
                 f'Cycle detected for {addr}:\n- ' + '\n- '.join(chain))
 
-        return self.evaluator.evaluate(
+        value = self._cache[addr] = self.evaluator.evaluate(
             addr, EvaluatorContext(self.evaluator, addr, chain))
+        return value
 
 
 class Evaluator:
